@@ -52,7 +52,7 @@ class ScriptedPeer(object):
         self.closed = False
         self.stalled = None
         self.tag_replies = tag_replies
-        self.unsolicited = None       # stage name before which a 421 is pushed (C19)
+        self.after_transaction = None  # callable(peer) -> True: push a 421 and close after a message (C19)
 
     # ---- io helpers
     def _send(self, data):
@@ -228,6 +228,11 @@ class ScriptedPeer(object):
                     if not ok:
                         self.need_reset = True
                 self.cur['open'] = False
+                if self.after_transaction is not None and self.after_transaction(self):
+                    # server-initiated shutdown between messages
+                    self._send(b'421 4.4.2 idle, closing connection\r\n')
+                    self.sock.close()
+                    raise Disconnect()
             elif word == b'RSET':
                 self._reply('rset', 'rset', 'ok')
                 self.need_reset = False
